@@ -2776,8 +2776,8 @@ V(id='c15-mpc-outward-special-part-passed-on', prop='C15', file='mpmath/libmp/li
 V(id='c15-mpc-outward-no-special-test', prop='C15', file='mpmath/libmp/libmpi.py',
   old=_C15_SPECIAL, new="", expect='fire:C-R22:mpc_outward')
 V(id='c15-mpc-outward-infinite-bounds-swapped', prop='C15', file='mpmath/libmp/libmpi.py',
-  old="        if rounding == round_floor:\n            return fninf\n        return finf\n",
-  new="        if rounding == round_floor:\n            return finf\n        return fninf\n", expect='fire:C-R22:mpc_outward')
+  old="        # no bound in this direction\n        if rounding == round_floor:\n            return fninf\n        return finf\n",
+  new="        # no bound in this direction\n        if rounding == round_floor:\n            return finf\n        return fninf\n", expect='fire:C-R22:mpc_outward')
 V(id='c15-mpc-outward-special-test-own-part-only', prop='C15', file='mpmath/libmp/libmpi.py',
   old="    if [t for t in v if not t[1] and t[2]]:\n", new="    if not x[1] and x[2]:\n", expect='silent')
 V(id='c15-benign-mpc-outward-more-allowance', prop='C15', file='mpmath/libmp/libmpi.py',
